@@ -1164,6 +1164,9 @@ MICRO_PAIRS = [
     ("s1|trim", "s2|trim('a ')"),
     ("('<b>' ~ s1 ~ '</b>')|striptags", "s2|wordcount"),
     ("s1|urlencode", "d1|urlencode"),
+    # (values computed from data so that nothing is folded at compile time: equal-but-different values 1 / True / 1.0)
+    ("{'page': n1 * 0 + 1, 'off': n1 * 0, 'f': n1 * 0 + 2.0}|urlencode", "{'exact': n1 == n1, 'on': n1 != n1, 'n': n1 * 0 + 2}|urlencode"),
+    ("[n1 * 0 + 1, n1 * 0]|map('string')|join", "[n1 == n1, n1 != n1, n1 * 0 + 1.0]|map('string')|join(',')"),
     ("d1|pprint", "l1|pprint"),
     ("o1|attr('a')", "o1|attr('b')"),
     ("ld|min(attribute='k')|string", "ld|max(attribute='k')|string"),
